@@ -452,7 +452,8 @@ static bool op_t_apply(int const* in, int* out)
     Srcs s(in);
     TT t = make_tt(s, Idx{});
     o.val(LIB::apply(Collect{&o}, t));
-    o.val(LIB::apply(Collect{&o}, cst(t)));
+    // (const access to tuples with int& elements: separate operation t_const_ref)
+    if constexpr (!t_has_ref) o.val(LIB::apply(Collect{&o}, cst(t)));
     if constexpr (!t_has_ref) { // (rvalue access to int& elements does not compile in etl, see get_one)
         o.val(LIB::apply(Collect{&o}, cmv(t)));
         o.val(LIB::apply(Collect{&o}, mv(t))); // arguments are rvalues; Collect does not move from them
@@ -468,13 +469,30 @@ static bool op_t_mft(int const* in, int* out)
     RecN a = LIB::make_from_tuple<RecN>(t);
     for (int i = 0; i < TN; i++) { o.val(a.v[i]); o.val(a.f[i]); }
     o.val(a.n);
-    RecN b = LIB::make_from_tuple<RecN>(cst(t));
-    for (int i = 0; i < TN; i++) { o.val(b.v[i]); o.val(b.f[i]); }
+    if constexpr (!t_has_ref) {
+        RecN b = LIB::make_from_tuple<RecN>(cst(t));
+        for (int i = 0; i < TN; i++) { o.val(b.v[i]); o.val(b.f[i]); }
+    }
     if constexpr (!t_has_ref) {
         RecN c = LIB::make_from_tuple<RecN>(mv(t));
         for (int i = 0; i < TN; i++) { o.val(c.v[i]); o.val(c.f[i]); }
     }
     return true;
+}
+// const lvalue access to a tuple that has int& elements: get<I> / apply / make_from_tuple deliver the reference element as int&
+// (constness of the tuple does not reach through a reference member)
+static bool op_t_const_ref(int const* in, int* out)
+{
+    if constexpr (t_has_ref) {
+        Out o{out};
+        Srcs s(in);
+        TT t = make_tt(s, Idx{});
+        [&]<size_t... Is>(std::index_sequence<Is...>) { (o.val(Collect::flav<decltype(LIB::get<Is>(cst(t)))>()), ...); }(Idx{});
+        o.val(LIB::apply(Collect{&o}, cst(t)));
+        RecN b = LIB::make_from_tuple<RecN>(cst(t));
+        for (int i = 0; i < TN; i++) { o.val(b.v[i]); o.val(b.f[i]); }
+        return true;
+    } else return false;
 }
 // tuple_cat of rvalue tuples (lvalue arguments do not compile in etl: compile-time defect, see kernel.cpp), and with a pair
 template <typename C, size_t... Js> static void dump_any(Out& o, C const& c, std::index_sequence<Js...>) { (o.val(val(LIB::get<Js>(c))), ...); }
@@ -536,6 +554,6 @@ using TO = TupleOps<TL>;
 #define C20_TUPLE_OPS(X) \
     X(t_default, 1, TN) X(t_ctor_fwd, TN, 3 * TN) X(t_ctor_clv, TN, 2 * TN) X(t_copy, TN, 4 * TN) X(t_move, TN, 2 * TN) X(t_get, 2 * TN, 8 * TN) \
     X(t_eq, 2 * TN, 4) X(t_swap, 2 * TN, 3 * TN) X(t_apply, TN, 8 * TN + 4 + TN) X(t_mft, TN, 6 * TN + 1) X(t_cat, 2 * TN + 2, 5 * TN + 3) \
-    X(t_tie, 2 * TN, 5 * TN) X(t_make, TN, 2 * TN)
+    X(t_tie, 2 * TN, 5 * TN) X(t_make, TN, 2 * TN) X(t_const_ref, TN, 5 * TN + 1)
 } // namespace
 #endif
